@@ -44,6 +44,49 @@ theorem C07 (σ : List ReadStep) (r : Rem) (hr : r.wf) (hrest : r.atRest) (tail 
   obtain ⟨r', used, out, h1, _, _, h4, _, h6, h7, h8⟩ := C07_schedule σ r hr hrest tail
   exact ⟨r', used, out, h1, h4, h6, h7, h8⟩
 
+/-- **C07 (boundary stop).** With stopping on chunk boundaries enabled, a single read — from any valid
+    position, on any window of the remaining stream, into any output space — returns only data of the
+    current chunk (`Rem.curChunk`: the rest of the open chunk, or the chunk about to start when standing on
+    a boundary): never data from two different chunks. -/
+theorem C07_boundary (r : Rem) (hr : r.wf) (hrest : r.atRest) (tail : Bytes) (m cap : Nat) :
+    ∃ (d' : Dechunker) (n : Nat) (out : Bytes),
+      callReadS r.state ((r.enc ++ tail).take m) cap true = (d', .ok (n, out)) ∧ out <+: r.curChunk := by
+  unfold callReadS
+  by_cases he : r.state = .ended
+  · exact ⟨r.state, 0, [], by simp [he], List.nil_prefix⟩
+  · have hne : (r.state == Dechunker.ended) = false := by simpa using he
+    simp only [hne, Bool.false_eq_true, if_false]
+    have htake : (r.enc ++ tail).take m = (r.enc ++ tail).take (min m (r.enc ++ tail).length) := by
+      rw [List.take_eq_take_min]
+    have hwl : ((r.enc ++ tail).take (min m (r.enc ++ tail).length)).length = min m (r.enc ++ tail).length := by
+      rw [List.length_take]; omega
+    obtain ⟨r1, n1, o1, hread, _, _, _, _, _, _, _, hb, _⟩ :=
+      readChunkedS_inv (((r.enc ++ tail).take (min m (r.enc ++ tail).length)).length + 2) r hr hrest tail
+        (min m (r.enc ++ tail).length) cap true (by omega) (by rw [hwl]; omega)
+    rw [htake, hread]
+    exact ⟨r1.state, n1, o1, rfl, hb rfl⟩
+
+/-- **C07 (progress).** A caller that offers everything that remains of the coding (plus whatever follows)
+    with room for at least one byte is never stuck: unless the body has already ended, the read consumes
+    at least one byte. Together with `C07` (consumed bytes are coding bytes, at most |coding|) a sane
+    caller finishes after finitely many reads. -/
+theorem C07_progress (r : Rem) (hr : r.wf) (hrest : r.atRest) (tail : Bytes) (m cap : Nat) (stop : Bool)
+    (hm : r.enc.length ≤ m) (hcap : 1 ≤ cap) (hne : r.state ≠ .ended) :
+    ∃ (d' : Dechunker) (n : Nat) (out : Bytes),
+      callReadS r.state ((r.enc ++ tail).take m) cap stop = (d', .ok (n, out)) ∧ 0 < n := by
+  unfold callReadS
+  have hne' : (r.state == Dechunker.ended) = false := by simpa using hne
+  simp only [hne', Bool.false_eq_true, if_false]
+  have htake : (r.enc ++ tail).take m = (r.enc ++ tail).take (min m (r.enc ++ tail).length) := by
+    rw [List.take_eq_take_min]
+  have hwl : ((r.enc ++ tail).take (min m (r.enc ++ tail).length)).length = min m (r.enc ++ tail).length := by
+    rw [List.length_take]; omega
+  obtain ⟨r1, n1, o1, hread, _, _, _, _, _, _, _, _, hlive⟩ :=
+    readChunkedS_inv (((r.enc ++ tail).take (min m (r.enc ++ tail).length)).length + 2) r hr hrest tail
+      (min m (r.enc ++ tail).length) cap stop (by omega) (by rw [hwl]; omega)
+  rw [htake, hread]
+  exact ⟨r1.state, n1, o1, rfl, hlive (by simp; omega) hcap hne⟩
+
 /-- The semantic hypothesis of the grammar ("the size field parses to n") is met by every run of hex
     digits, upper or lower case, with leading zeros, whose value fits `usize`. -/
 theorem C07_sizefield (ds : Bytes) (hne : ds ≠ []) (h : ∀ b ∈ ds, isHexB b = true) (hle : hexValue ds ≤ USIZE_MAX) :
